@@ -36,6 +36,9 @@ def generate(seed, tier="quick"):
     prof.special = [s for s in prof.special if s != "norepr"]
     prog = W.gen_program(rng, prof, {"prev": PREV, "n_sites": (1, 6), "n_tests": (1, 3), "styles": ["assert", "assert", "rec"],
                                      "raise_events": 0.15, "hand": 0.4})
+    mrng = sub(seed, "mutation")
+    if mrng.random() < 0.15:
+        W.add_mutation_test(mrng, prog["files"][0], style=mrng.choice(["rec", "assert"]), prev=True)
     urng = sub(seed, "unmanaged")
     for f in prog["files"]:
         for sid, s in f["sites"].items():
